@@ -46,7 +46,7 @@ func enumDHCP(alpha []dOp, depth, i int, cfg dhcpCfg) dhcpHistory {
 var dReqClasses = []string{"", "offered", "offered", "current", "current", "other", "other", "free", "offsubnet", "network", "broadcast", "router", "host", "othersubnet"}
 
 func genDHCPHistory(t *rapid.T) dhcpHistory {
-	h := dhcpHistory{Cfg: dhcpCfg{Net: rapid.IntRange(0, 2).Draw(t, "net"), Mode: rapid.IntRange(1, 3).Draw(t, "mode"), Quiet: rapid.IntRange(0, 3).Draw(t, "quiet") == 0}}
+	h := dhcpHistory{Cfg: dhcpCfg{Net: rapid.IntRange(0, 2).Draw(t, "net"), Mode: rapid.IntRange(1, 3).Draw(t, "mode"), Quiet: rapid.IntRange(0, 3).Draw(t, "quiet") == 0, Debug: rapid.IntRange(0, 5).Draw(t, "debug") == 0}}
 	n := rapid.IntRange(5, 80).Draw(t, "nops")
 	for i := 0; i < n; i++ {
 		op := dOp{K: rapid.SampledFrom([]string{"discover", "discover", "discover", "request", "request", "request", "request", "decline", "release", "capture", "uncapture", "tick", "foreign"}).Draw(t, "k")}
@@ -58,7 +58,7 @@ func genDHCPHistory(t *rapid.T) dhcpHistory {
 			op.Name, op.PRL, op.Bcast = rapid.IntRange(0, 2).Draw(t, "name"), rapid.IntRange(0, 4).Draw(t, "prl"), rapid.Bool().Draw(t, "bcast")
 			op.Spoof = rapid.IntRange(0, 19).Draw(t, "spoof") == 0
 		case "request":
-			op.Kind = rapid.SampledFrom([]string{"sel-ours", "sel-ours", "sel-ours", "sel-other", "renew", "rebind", "reboot"}).Draw(t, "kind")
+			op.Kind = rapid.SampledFrom([]string{"sel-ours", "sel-ours", "sel-ours", "sel-other", "renew", "renew", "rebind", "reboot", "renew-other"}).Draw(t, "kind")
 			op.Req = rapid.SampledFrom(dReqClasses).Draw(t, "req")
 			if op.Kind != "sel-ours" && op.Kind != "sel-other" && rapid.IntRange(0, 2).Draw(t, "ownLease") != 0 {
 				op.Req = "current" // renew / rebind / reboot of the client's own lease: the common case
